@@ -40,8 +40,8 @@ func genC12History(rt *rapid.T, w *chain.World, c *harness.Case) *chain.History 
 	jail := rapid.IntRange(0, 2).Draw(rt, "jailScenario") > 0
 	if jail {
 		c.Label("jail-scenario")
-		// 7 blocks with the victim absent and the others signing (window 10, max missed 4 -> jailed at the 5th miss)
-		for i := 0; i < 7; i++ {
+		// 14 blocks with the victim absent (the signing window restarts at every height divisible by 10) and the others signing (window 10, max missed 4 -> jailed at the 5th miss)
+		for i := 0; i < 14; i++ {
 			b, txs := w.GenBlock(rt)
 			b.DT = time.Second
 			b.Absent = map[string]bool{vaddr: true}
